@@ -285,6 +285,15 @@ BUILTIN_FUNCS = {"type", "setattr", "divmod", "len", "range", "enumerate", "zip"
                  "next", "reversed", "map", "filter", "open", "issubclass", "callable", "divmod"}
 
 
+def _memoising_decorator(fi):
+    for d in getattr(fi.node, "decorator_list", []):
+        t = d.func if isinstance(d, ast.Call) else d
+        name = t.attr if isinstance(t, ast.Attribute) else (t.id if isinstance(t, ast.Name) else "")
+        if name in ("lru_cache", "cache", "cached_property", "memoize", "memoized"):
+            return True
+    return False
+
+
 class Interp:
     def __init__(self, repo, ctx, policy=None):
         self.repo = repo
@@ -1138,7 +1147,33 @@ class Interp:
                 c = None
             if c is not None:
                 self.call_log.append(("contract", fi.qualname))
-                return c.apply(self, fi, args, kwargs)
+                return self._shared_if_memoised(fi, c.apply(self, fi, args, kwargs))
+        if _memoising_decorator(fi):
+            return self._shared_if_memoised(fi, self._call_inline(fi, args, kwargs))
+        return self._call_inline(fi, args, kwargs)
+
+    def _shared_if_memoised(self, fi, r):
+        """functools.lru_cache / cache: every caller with equal arguments gets the SAME result object, so a container
+        it returns is not the caller's own (writing into it is a write to state that outlives the call)"""
+        if not _memoising_decorator(fi):
+            return r
+
+        def mark(v, d=2):
+            if isinstance(v, (PyList, PyDict, PySet)):
+                v.fresh = False
+                v.label = getattr(v, "label", None) or f"memoised result of {fi.qualname}"
+                if d:
+                    for x in (v.items if isinstance(v, (PyList, PySet)) else v.d.values()):
+                        mark(x, d - 1)
+            elif isinstance(v, Obj):
+                v.fresh = False
+            elif isinstance(v, tuple):
+                for x in v:
+                    mark(x, d)
+        mark(r)
+        return r
+
+    def _call_inline(self, fi, args, kwargs):
         self.call_log.append(("inline", fi.qualname))
         if self.depth > 60:
             raise EngineLimit("call depth")
